@@ -792,4 +792,171 @@ theorem propPre_of_formPre (props : List (Str × RS)) (h : formPre props = .ok) 
     · exact hp
     · exact ih hr kp hkp
 
+/-! ### multipart: the decoder's two loops against the declarative reading -/
+
+theorem decodePart_spec (reg : List (Str × DecK)) (p : Part) :
+    (∀ v, decodePart reg p = .val v → specPart reg p = some v) ∧
+    (decodePart reg p = .err → specPart reg p = none) ∧
+    (decodePart reg p = .unmodelled → specPart reg p = none) ∧ decodePart reg p ≠ .panic := by
+  unfold decodePart specPart
+  simp only
+  cases lookup (base (if p.ct = [] then "text/plain".toList else p.ct)) reg with
+  | none => simp
+  | some k =>
+    cases k with
+    | json => cases p.json <;> simp [decodeSimple]
+    | plain => simp [decodeSimple]
+    | file => simp [decodeSimple]
+    | yaml => cases p.yaml <;> simp [decodeSimple]
+    | csv => cases p.csv <;> simp [decodeSimple]
+    | urlencoded => simp [decodeSimple]
+    | multipart => simp [decodeSimple]
+
+/-- first loop: what it collects, and when it fails -/
+theorem collectParts_spec (reg : List (Str × DecK)) (s : RS) (ps : List Part) :
+    (∀ vals, collectParts reg s ps = .inl (some vals) →
+      ps.any (fun p => partDecl s p.name == .undefined) = false ∧
+      (ps.filter fun p => partDecl s p.name == .found).any (fun p => (specPart reg p).isNone) = false ∧
+      vals = (ps.filter fun p => partDecl s p.name == .found).filterMap (fun p => (specPart reg p).map fun v => (p.name, v))) ∧
+    (collectParts reg s ps = .inl none →
+      ps.any (fun p => partDecl s p.name == .undefined) = true ∨
+      (ps.filter fun p => partDecl s p.name == .found).any (fun p => (specPart reg p).isNone) = true) ∧
+    (collectParts reg s ps = .inr () →
+      ps.any (fun p => partDecl s p.name == .undefined) = true ∨
+      (ps.filter fun p => partDecl s p.name == .found).any (fun p => (specPart reg p).isNone) = true) := by
+  induction ps with
+  | nil => simp [collectParts]
+  | cons p r ih =>
+    obtain ⟨ih1, ih2, ih3⟩ := ih
+    unfold collectParts
+    cases hd : partDecl s p.name with
+    | skip =>
+      simp only [List.any_cons, hd, List.filter_cons]
+      exact ⟨fun vals h => by simpa using ih1 vals h, fun h => by simpa using ih2 h, fun h => by simpa using ih3 h⟩
+    | undefined => simp [hd]
+    | found =>
+      obtain ⟨d1, d2, d3, d4⟩ := decodePart_spec reg p
+      have hfound : (partDecl s p.name == PartDecl.found) = true := by simp [hd]
+      have hundef : (partDecl s p.name == PartDecl.undefined) = false := by simp [hd]
+      have eAny : ((p :: r).any fun p => partDecl s p.name == PartDecl.undefined) =
+          r.any fun p => partDecl s p.name == PartDecl.undefined := by
+        simp only [List.any_cons, hundef, Bool.false_or]
+      have eFil : ((p :: r).filter fun p => partDecl s p.name == PartDecl.found) =
+          p :: r.filter fun p => partDecl s p.name == PartDecl.found := by
+        simp only [List.filter_cons, hfound, if_true]
+      rw [eAny, eFil]
+      have eAny2 : ∀ l : List Part, ((p :: l).any fun p => (specPart reg p).isNone) =
+          ((specPart reg p).isNone || l.any fun p => (specPart reg p).isNone) := fun l => by simp only [List.any_cons]
+      cases hp : decodePart reg p with
+      | err =>
+        have hn := d2 hp
+        dsimp only
+        refine ⟨(fun vals h => by cases h), (fun _ => Or.inr ?_), (fun h => by cases h)⟩
+        rw [eAny2, hn]; rfl
+      | unmodelled =>
+        have hn := d3 hp
+        dsimp only
+        refine ⟨(fun vals h => by cases h), (fun h => by cases h), (fun _ => Or.inr ?_)⟩
+        rw [eAny2, hn]; rfl
+      | panic => exact absurd hp d4
+      | val v =>
+        have hv := d1 v hp
+        have eFM : ∀ l : List Part, (p :: l).filterMap (fun p => (specPart reg p).map fun v => (p.name, v)) =
+            (p.name, v) :: l.filterMap (fun p => (specPart reg p).map fun v => (p.name, v)) := by
+          intro l; simp only [List.filterMap_cons, hv, Option.map_some]
+        have eA : ∀ l : List Part, ((p :: l).any fun p => (specPart reg p).isNone) = l.any fun p => (specPart reg p).isNone := by
+          intro l; rw [eAny2, hv]; rfl
+        rw [eA, eFM]
+        dsimp only
+        cases hr : collectParts reg s r with
+        | inl o =>
+          cases o with
+          | none =>
+            dsimp only
+            exact ⟨(fun vals h => by cases h), (fun _ => ih2 hr), (fun h => by cases h)⟩
+          | some l =>
+            dsimp only
+            refine ⟨(fun vals h => ?_), (fun h => by cases h), (fun h => by cases h)⟩
+            obtain ⟨a1, a2, a3⟩ := ih1 l hr
+            have h' : (p.name, v) :: l = vals := by
+              have := h; simp only [Sum.inl.injEq, Option.some.injEq] at this; exact this
+            exact ⟨a1, a2, by rw [← h', a3]⟩
+        | inr u =>
+          dsimp only
+          exact ⟨(fun vals h => by cases h), (fun h => by cases h), (fun _ => ih3 (by cases u; exact hr))⟩
+
+theorem assemble_eq_filterMap (vals : List (Str × V)) (props : List (Str × RS)) :
+    assemble vals props = props.filterMap fun kp =>
+      match valuesOf kp.1 vals with
+      | [] => none
+      | v :: vs => some (kp.1, if tyIs kp.2.ty .array then .arr (v :: vs) else v) := by
+  induction props with
+  | nil => rfl
+  | cons e r ih =>
+    obtain ⟨k, p⟩ := e
+    unfold assemble
+    simp only [List.filterMap_cons]
+    cases valuesOf k vals with
+    | nil => simp only; exact ih
+    | cons v vs => simp only; rw [ih]
+
+theorem valuesOf_collected (reg : List (Str × DecK)) (k : Str) (used : List Part) :
+    valuesOf k (used.filterMap fun p => (specPart reg p).map fun v => (p.name, v)) =
+      (used.filter fun p => p.name = k).filterMap (specPart reg) := by
+  induction used with
+  | nil => rfl
+  | cons p r ih =>
+    unfold valuesOf at ih ⊢
+    simp only [List.filterMap_cons, List.filter_cons]
+    cases hs : specPart reg p with
+    | none =>
+      simp only [Option.map_none]
+      by_cases hk : p.name = k
+      · simp only [hk, decide_true, if_true, List.filterMap_cons, hs]; simpa [hk] using ih
+      · simp only [hk, decide_false, Bool.false_eq_true, if_false]; exact ih
+    | some v =>
+      simp only [Option.map_some, List.filter_cons]
+      by_cases hk : p.name = k
+      · simp only [hk, decide_true, if_true, List.map_cons, List.filterMap_cons, hs]
+        rw [← hk] at ih ⊢
+        simpa using ih
+      · simp only [hk, decide_false, Bool.false_eq_true, if_false]; exact ih
+
+theorem filterMap_congr_mem {α β : Type} (l : List α) (f g : α → Option β) (h : ∀ x ∈ l, f x = g x) :
+    l.filterMap f = l.filterMap g := by
+  induction l with
+  | nil => rfl
+  | cons x r ih =>
+    simp only [List.filterMap_cons]
+    rw [h x (by simp), ih (fun y hy => h y (by simp [hy]))]
+
+/-- **the multipart decoder builds the object the parts encode** (and fails exactly when they encode none);
+`unmodelled` (a part that needs a nested form decoder) only where the declarative reading has no value either -/
+theorem decodeMultipart_spec (reg : List (Str × DecK)) (s : RS) (ps : List Part) (h : tyIs s.ty .object = true) :
+    (∀ v, decodeMultipart reg s (some ps) = .val v → specMultipart reg s ps = some v) ∧
+    (decodeMultipart reg s (some ps) = .err → specMultipart reg s ps = none) ∧
+    (decodeMultipart reg s (some ps) = .unmodelled → specMultipart reg s ps = none) ∧
+    decodeMultipart reg s (some ps) ≠ .panic := by
+  obtain ⟨c1, c2, c3⟩ := collectParts_spec reg s ps
+  unfold decodeMultipart specMultipart
+  simp only [h, Bool.not_true, Bool.false_eq_true, if_false]
+  cases hc : collectParts reg s ps with
+  | inl o =>
+    cases o with
+    | none =>
+      rcases c2 hc with h' | h' <;> simp [h']
+    | some vals =>
+      obtain ⟨a1, a2, a3⟩ := c1 vals hc
+      simp only [a1, a2, Bool.false_eq_true, if_false, Dec.val.injEq, reduceCtorEq, false_implies, ne_eq,
+        not_false_eq_true, and_true]
+      intro v hv
+      rw [← hv, assemble_eq_filterMap, a3]
+      congr 2
+      apply filterMap_congr_mem
+      intro kp _
+      rw [valuesOf_collected]
+      rfl
+  | inr u =>
+    rcases c3 (by cases u; exact hc) with h' | h' <;> simp [h']
+
 end KinModel.Body
